@@ -199,7 +199,9 @@ impl Parser {
                 assert_eq!(arguments.as_rule(), Rule::function_arguments);
 
                 let mut allow_self_type = Cow::Borrowed(lhs_ty);
-                let mut assume_self_is_on_top = true;
+                // only a bound method (or a built-in) receives the value it is looked up on as its first
+                // argument; a field that merely holds a function is called with the arguments as written
+                let mut assume_self_is_on_top = function_type.is_associated_fn();
 
                 if let TypeLayout::Module(module_type) = lhs_ty {
                     if let Some(ident) = module_type.get_property(&ident_str) {
